@@ -180,3 +180,20 @@ Proof.
 Qed.
 
 End Run.
+
+(* ---------- correspondence: reported conflicts and registered assertions of a run ---------- *)
+
+Fixpoint idx_true (i : N) (l : list bool) : list N :=
+  match l with
+  | [] => []
+  | true :: t => i :: idx_true (N.succ i) t
+  | false :: t => idx_true (N.succ i) t
+  end.
+
+(* [conf] / [asrt]: positions (among the encoder's clauses, in allocation order) of the clauses the
+   implementation reported as conflicting / registered as negative assertions *)
+Definition check_watch (U : provider) (P : problem) (evs : list sev) (conf asrt : list N) : bool * bool * bool :=
+  match enc_run_w U P (estate0 cache0) [] [] evs [] with
+  | Some l => (nl_eqb (idx_true 0 (conflict_flags l)) conf, nl_eqb (idx_true 0 (assert_flags l)) asrt, sides_ok l)
+  | None => (false, false, false)
+  end.
